@@ -13,8 +13,24 @@ fn is_apostrophe_variant(c: char) -> bool {
 }
 
 pub fn test_title(text: &String, ctx: &mut CaseCtx) -> Result<(), String> {
+    ctx.class_if(text.contains('\n'), "has_line_break");
+    ctx.class_if(text.ends_with('\n'), "ends_with_line_break");
+    // the two entry points: the library function and the JavaScript-facing binding
+    test_title_via(text, ctx, "make_title_case_str", &|t: &str| {
+        make_title_case_str(t, &PlainEnglish, &FstDictionary::curated())
+    })?;
+    test_title_via(text, &mut CaseCtx::default(), "harper_wasm::to_title_case", &|t: &str| {
+        harper_wasm::to_title_case(t.to_string())
+    })
+}
+
+fn test_title_via(text: &String, ctx: &mut CaseCtx, via: &str, convert: &dyn Fn(&str) -> String) -> Result<(), String> {
+    test_title_inner(text, ctx, convert).map_err(|e| format!("[{via}] {e}"))
+}
+
+fn test_title_inner(text: &String, ctx: &mut CaseCtx, convert: &dyn Fn(&str) -> String) -> Result<(), String> {
     let dict = FstDictionary::curated();
-    let out = make_title_case_str(text, &PlainEnglish, &dict);
+    let out = convert(text);
     let a: Vec<char> = text.chars().collect();
     let b: Vec<char> = out.chars().collect();
     let doc = Document::new(text, &PlainEnglish, &dict);
@@ -71,7 +87,7 @@ pub fn test_title(text: &String, ctx: &mut CaseCtx) -> Result<(), String> {
             ));
         }
     }
-    let again = make_title_case_str(&out, &PlainEnglish, &dict);
+    let again = convert(&out);
     if again != out {
         return Err(format!(
             "not idempotent: {:?} -> {:?} -> {:?}",
@@ -128,6 +144,16 @@ fn title_text() -> BoxedStrategy<String> {
         2 => g::paragraph(),
         1 => g::harvested_sentence(),
     ]
+    // a paragraph may be wrapped over several lines and end with a line break
+    .prop_flat_map(|t| {
+        prop_oneof![
+            6 => Just(t.clone()),
+            1 => Just(format!("{t}\n")),
+            1 => Just(format!("{t}\r\n")),
+            1 => Just(t.replacen(' ', "\n", 1)),
+            1 => Just(t.replacen(' ', "\r\n", 1)),
+        ]
+    })
     .boxed()
 }
 
@@ -185,11 +211,13 @@ pub fn test_markdown_equivalence(c: &(String, u8), ctx: &mut CaseCtx) -> Result<
 }
 
 pub fn run(run: &mut Run) {
-    run.rule = "single-paragraph texts: 1-8 words drawn from dictionary words, short prepositions/articles/conjunctions, dictionary proper nouns in wrong case / with curly apostrophes, special words (ligatures, Turkish İ/ı, astral, hyphenated, contractions, numbers) with varied separators; plus G-TEXT paragraphs and harvested sentences; through make_title_case_str(PlainEnglish, curated). Non-trivial = >=3 word-like tokens incl. a small word or a proper noun; distinct by text.".into();
+    run.rule = "both entry points (make_title_case_str and the JavaScript-facing harper_wasm::to_title_case) on single-paragraph texts, 1 in 3 wrapped over two lines (LF / CRLF) or ending with a line break: 1-8 words drawn from dictionary words, short prepositions/articles/conjunctions, dictionary proper nouns in wrong case / with curly apostrophes, special words (ligatures, Turkish İ/ı, astral, hyphenated, contractions, numbers) with varied separators; plus G-TEXT paragraphs and harvested sentences; through make_title_case_str(PlainEnglish, curated). Non-trivial = >=3 word-like tokens incl. a small word or a proper noun; distinct by text.".into();
     let n = run.n(50_000, 3_000_000);
     run.prop("title_case", n, title_text, test_title);
     run.require_class("title_case", "has_small_word", (n / 10) as u64);
     run.require_class("title_case", "has_proper_noun", (n / 10) as u64);
+    run.require_class("title_case", "has_line_break", (n / 20) as u64);
+    run.require_class("title_case", "ends_with_line_break", (n / 40) as u64);
 
     let n = run.n(20_000, 500_000);
     run.prop(
